@@ -6,6 +6,13 @@
 // order object are p0,p1,.. (storage order), of a fourth-order object p00,p01,.. (row, column of
 // the stored matrix, row major).
 #include "tracehelp.hxx"
+// glue.hxx has no UnaryResultType<Sym, OpNeg> (needed by `-t` on tensors of Sym): local workaround
+namespace tfel::math {
+  template <>
+  struct UnaryResultType<verif::Sym, OpNeg> {
+    using type = verif::Sym;
+  };
+}  // namespace tfel::math
 #include "TFEL/Math/stensor.hxx"
 #include "TFEL/Math/tensor.hxx"
 #include "TFEL/Math/tmatrix.hxx"
@@ -195,14 +202,32 @@ void trace_tensor() {
     const tensor<N, Sym> r = tensor<N, Sym>::Id();
     verif::outputs("r", r, T);
   }
+  if constexpr (N == 1) {
+    // polar_decomposition: closed form in 1D only. In 2D/3D it calls stensor::computeEigenValues (Cardano
+    // formula with value dependent branches and acos/cos: the province of C03) and cannot be traced with
+    // the shared symtrace headers as they stand (see checks/C02.py, "partial").
+    Unit u(d + "polar");
+    tensor<N, Sym> F;
+    verif::fill_inputs(F, "f", T);
+    tensor<N, Sym> R;
+    stensor<N, Sym> U;
+    polar_decomposition(R, U, F);
+    verif::outputs("u", U, S);
+    verif::outputs("r", R, T);
+  }
 }
 
-template <unsigned short N>
+// FAM selects the families traced by this instantiation (bit mask): the check compiles this file several
+// times with different -DC02_PART=... so that the (slow, -O0) template instantiation runs in parallel.
+constexpr int FAM_ST = 1, FAM_TT = 2, FAM_TS = 4, FAM_S2T = 8;
+
+template <unsigned short N, int FAM>
 void trace_fourth_order() {
   constexpr int S = StensorDimeToSize<N>::value;
   constexpr int T = TensorDimeToSize<N>::value;
   const std::string n = "N" + std::to_string(N) + "_";
   // ------------------------------------------------------------ st2tost2
+  if constexpr ((FAM & FAM_ST) != 0) {
   {
     Unit u(n + "st_apply");
     st2tost2<N, Sym> C;
@@ -340,7 +365,18 @@ void trace_fourth_order() {
     const st2tost2<N, Sym> r = st2tost2<N, Sym>::convert(D);
     verif::outputs2("r", r, S, S);
   }
+  {
+    Unit u(n + "st_comp_ts_s2t");  // t2tost2 * st2tot2 -> st2tost2
+    t2tost2<N, Sym> D;
+    st2tot2<N, Sym> E;
+    verif::fill_inputs2(D, "a", S, T);
+    verif::fill_inputs2(E, "b", T, S);
+    const st2tost2<N, Sym> r = D * E;
+    verif::outputs2("r", r, S, S);
+  }
+  }
   // ------------------------------------------------------------ t2tot2
+  if constexpr ((FAM & FAM_TT) != 0) {
   {
     Unit u(n + "tt_apply");
     t2tot2<N, Sym> C;
@@ -450,7 +486,18 @@ void trace_fourth_order() {
     const t2tot2<N, Sym> r(D);
     verif::outputs2("r", r, T, T);
   }
+  {
+    Unit u(n + "tt_comp_s2t_ts");  // st2tot2 * t2tost2 -> t2tot2
+    st2tot2<N, Sym> E;
+    t2tost2<N, Sym> D;
+    verif::fill_inputs2(E, "a", T, S);
+    verif::fill_inputs2(D, "b", S, T);
+    const t2tot2<N, Sym> r = E * D;
+    verif::outputs2("r", r, T, T);
+  }
+  }
   // ------------------------------------------------------------ t2tost2
+  if constexpr ((FAM & FAM_TS) != 0) {
   {
     Unit u(n + "ts_apply");
     t2tost2<N, Sym> D;
@@ -526,7 +573,9 @@ void trace_fourth_order() {
     const t2tost2<N, Sym> r = t2tost2<N, Sym>::dBdF(F);
     verif::outputs2("r", r, S, T);
   }
+  }
   // ------------------------------------------------------------ st2tot2
+  if constexpr ((FAM & FAM_S2T) != 0) {
   {
     Unit u(n + "s2t_apply");
     st2tot2<N, Sym> E;
@@ -564,24 +613,6 @@ void trace_fourth_order() {
     verif::outputs2("r", r, T, S);
   }
   {
-    Unit u(n + "tt_comp_s2t_ts");  // st2tot2 * t2tost2 -> t2tot2
-    st2tot2<N, Sym> E;
-    t2tost2<N, Sym> D;
-    verif::fill_inputs2(E, "a", T, S);
-    verif::fill_inputs2(D, "b", S, T);
-    const t2tot2<N, Sym> r = E * D;
-    verif::outputs2("r", r, T, T);
-  }
-  {
-    Unit u(n + "st_comp_ts_s2t");  // t2tost2 * st2tot2 -> st2tost2
-    t2tost2<N, Sym> D;
-    st2tot2<N, Sym> E;
-    verif::fill_inputs2(D, "a", S, T);
-    verif::fill_inputs2(E, "b", T, S);
-    const st2tost2<N, Sym> r = D * E;
-    verif::outputs2("r", r, S, S);
-  }
-  {
     Unit u(n + "s2t_dyad");  // tensor ^ stensor
     tensor<N, Sym> x;
     stensor<N, Sym> s;
@@ -604,14 +635,32 @@ void trace_fourth_order() {
     const st2tot2<N, Sym> r = st2tot2<N, Sym>::tprd(a);
     verif::outputs2("r", r, T, S);
   }
+  }
 }
 
+#ifndef C02_PART
+#define C02_PART 0
+#endif
+
 int main() {
-  trace_tensor<1>();
-  trace_tensor<2>();
-  trace_tensor<3>();
-  trace_fourth_order<1>();
-  trace_fourth_order<2>();
-  trace_fourth_order<3>();
+  constexpr int ALL = FAM_ST | FAM_TT | FAM_TS | FAM_S2T;
+  if constexpr (C02_PART == 0 || C02_PART == 1) {
+    trace_tensor<1>();
+    trace_tensor<2>();
+    trace_tensor<3>();
+  }
+  if constexpr (C02_PART == 0 || C02_PART == 2) {
+    trace_fourth_order<1, ALL>();
+    trace_fourth_order<2, ALL>();
+  }
+  if constexpr (C02_PART == 0 || C02_PART == 3) {
+    trace_fourth_order<3, FAM_ST>();
+  }
+  if constexpr (C02_PART == 0 || C02_PART == 4) {
+    trace_fourth_order<3, FAM_TT>();
+  }
+  if constexpr (C02_PART == 0 || C02_PART == 5) {
+    trace_fourth_order<3, FAM_TS | FAM_S2T>();
+  }
   return 0;
 }
